@@ -279,6 +279,11 @@ def spec_leaves(spec):
         for d in spec["nd"]["shape"]:
             n *= d
         return max(1, n)
+    if "ndfold" in spec:
+        n = 1
+        for d in list(spec["ndfold"]["shape"]) + list(spec["ndfold"]["ishape"]):
+            n *= d
+        return max(1, n)
     if "l" in spec:
         return sum(spec_leaves(x) for x in spec["l"]) or 1
     if "d" in spec:
@@ -426,7 +431,7 @@ class ValueGen:
             return gen_scalar(rng, ty["t"])
         if k == "str":
             if self.sw.get("str_cap") and rng.random() < 0.2:
-                return {"cap": rng.choice([1, 2, 7, 8, 9, 16, 24, 30])}
+                return {"cap": rng.choice([0, 1, 2, 7, 8, 9, 16, 24, 30])}
             return {"s": rng.choice(STRINGS)}
         if k == "struct":
             if self.sw.get("xobj_input") and rng.random() < (0.25 if top else 0.1):
@@ -503,6 +508,15 @@ class ValueGen:
                 hexd = np.array([rng.randint(lo, 100) for _ in range(n)], dtype=sdt).tobytes().hex()
             layout = rng.choice(["C", "C", "F", "strided", "be"]) if nd > 1 or rng.random() < 0.3 else "C"
             return {"nd": {"hex": hexd, "src": src, "shape": shape, "layout": layout}}
+        if ity["k"] == "array" and self.sw.get("nd_input") and 0.45 <= r < 0.7 and n > 0 and schema[ity["item"]]["k"] == "sc" and all(d is not None and d > 0 for d in ity["shape"]):
+            # items are static arrays of numbers: one ndarray whose trailing axes are the items' own
+            st = schema[ity["item"]]["t"]
+            ishape = list(ity["shape"])
+            m = n
+            for d in ishape:
+                m *= d
+            hexd = b"".join(bytes.fromhex(gen_scalar(rng, st)["x"]) for _ in range(m)).hex()
+            return {"ndfold": {"hex": hexd, "src": st, "shape": shape, "ishape": ishape, "layout": rng.choice(["C", "C", "F", "strided"])}}
         # nested lists: a list cannot carry the trailing extents of an empty leading dimension
         if n == 0 and nd > 1 and ity["k"] == "sc" and any(d == 0 for d in ty["shape"]):
             # a static zero-length dimension: the shape cannot be altered to suit the input form
@@ -690,6 +704,22 @@ class Materialiser:
             conv = a.astype(tdt)
             items = [conv[idx].tobytes() for idx in c_indices(shape)]
             return arr, ArrayNode(t, shape, items)
+        if "ndfold" in spec:
+            nd = spec["ndfold"]
+            shape, ishape = tuple(nd["shape"]), tuple(nd["ishape"])
+            dt = np.dtype(SC_DTYPE[nd["src"]])
+            a = np.frombuffer(bytes.fromhex(nd["hex"]), dtype=dt).reshape(shape + ishape)
+            if nd["layout"] == "F":
+                arr = np.asfortranarray(a)
+            elif nd["layout"] == "strided":
+                big = np.zeros(tuple(2 * d for d in a.shape), dtype=dt)
+                sl = tuple(slice(None, None, 2) for _ in a.shape)
+                big[sl] = a
+                arr = big[sl]
+            else:
+                arr = a.copy()
+            nodes = [ArrayNode(item, ishape, [a[idx + jdx].tobytes() for jdx in c_indices(ishape)]) for idx in c_indices(shape)]
+            return arr, ArrayNode(t, shape, nodes)
         shape = tuple(spec["shape"])
         pys, nodes = [], []
         for s in spec["l"]:
